@@ -240,3 +240,31 @@ V("c15-benign-check-after-alg", "C15", "benign", "", "check_header moved after g
 V("c15-benign-supported-loop", "C15", "benign", "", "check_supported_header as a loop",
   "registry.py", "    allowed_keys = set(registry.keys())\n    unsupported_keys = set(header.keys()) - allowed_keys\n    if unsupported_keys:\n        raise ValueError(f'Unsupported {unsupported_keys} in header')",
   "    for name in header:\n        if name not in registry:\n            raise ValueError(f'Unsupported {name} in header')")
+
+# ------------------------------------------------------------------------------------------------ C20
+V("c20-hmac-context-on-self", "C20", "break", "R20.", "HMAC sign keeps its MAC context on the shared model",
+  "rfc7518/jws_algs.py", "        op_key = key.get_op_key(\"sign\")\n        return hmac.new(op_key, msg, self.hash_alg).digest()",
+  "        op_key = key.get_op_key(\"sign\")\n        self._ctx = hmac.new(op_key, msg, self.hash_alg)\n        return self._ctx.digest()")
+V("c20-get-by-kid-reorders", "C20", "break", "R20.1", "get_by_kid moves the hit to the front of the shared list",
+  "_keys.py", "            if key.kid == kid:\n                return key\n", "            if key.kid == kid:\n                self.keys.remove(key)\n                self.keys.insert(0, key)\n                return key\n")
+V("c20-cek-cached-on-model", "C20", "break", "R20.", "generate_cek caches the CEK on the enc model",
+  "rfc7516/models.py", "    def generate_cek(self) -> bytes:\n        return secrets.token_bytes(self.cek_size // 8)",
+  "    def generate_cek(self) -> bytes:\n        if not hasattr(self, \"_cek\"):\n            self._cek = secrets.token_bytes(self.cek_size // 8)\n        return self._cek")
+V("c20-default-registry-strictness", "C20", "break", "R20.1", "serialize_compact relaxes the shared default registry",
+  "jws.py", "    if registry is None:\n        registry = construct_registry(algorithms)\n\n    registry.check_header(protected)\n    obj = CompactSignature(protected, to_bytes(payload))",
+  "    if registry is None:\n        registry = construct_registry(algorithms)\n    if \"b64\" in protected:\n        registry.strict_check_header = False\n\n    registry.check_header(protected)\n    obj = CompactSignature(protected, to_bytes(payload))")
+V("c20-module-level-last-alg", "C20", "break", "R20.", "registry remembers the last algorithm in a module global",
+  "rfc7515/registry.py", "        return self.algorithms[name]\n", "        global _last\n        _last = name\n        return self.algorithms[name]\n")
+V("c20-rebind-dict-value", "C20", "break", "R20.4", "dict_value rebinds the lazy view (lost update with ensure_kid)",
+  "rfc7517/models.py", "        self._dict_value.update(data)\n        return self._dict_value", "        self._dict_value = data\n        return data")
+V("c20-key-ops-cache", "C20", "break", "R20.1", "check_key_op memoises the verdict on the key",
+  "rfc7517/models.py", "        reg = self.operation_registry[operation]\n        if reg.private and not self.is_private:", "        reg = self.operation_registry[operation]\n        self._dict_value[\"_last_op\"] = operation\n        if reg.private and not self.is_private:")
+V("c20-mutable-default", "C20", "break", "R20.5", "mutable default argument",
+  "rfc7515/registry.py", "def construct_registry(algorithms: list[str] | None = None) -> JWSRegistry:", "def construct_registry(algorithms: list[str] | None = None, _seen: list = []) -> JWSRegistry:")
+V("c20-class-level-cipher", "C20", "break", "R20.", "a padder context is created once at class level",
+  "rfc7518/jwe_encs.py", "    iv_size = 128\n    recommended = True\n\n    def __init__(self, key_size: int, hash_type: int):", "    iv_size = 128\n    recommended = True\n    _pad = PKCS7(128).padder()\n\n    def __init__(self, key_size: int, hash_type: int):")
+V("c20-benign-local-dict", "C20", "benign", "", "as_dict builds its result in a differently named local",
+  "rfc7517/models.py", "        data = self.dict_value.copy()\n        if private is not False:\n            data.update(params)\n            return data",
+  "        out = self.dict_value.copy()\n        data = out\n        if private is not False:\n            data.update(params)\n            return data")
+V("c20-benign-recipient-header", "C20", "benign", "", "Recipient.add_header always builds a new dict",
+  "rfc7516/models.py", "        elif self.header:\n            self.header.update({k: v})\n        else:\n            self.header = {k: v}", "        else:\n            self.header = {**(self.header or {}), k: v}")
